@@ -16,6 +16,10 @@ class InjectedFault(Exception):
     pass
 
 
+class InjectedInterrupt(BaseException):
+    """A fault that is not an Exception subclass (the load is interrupted the way Ctrl-C or a signal handler would)."""
+
+
 class _FaultyMixin:
     """Counts read/seek/tell calls; raises InjectedIOError at call index ``fail_at``."""
 
@@ -32,6 +36,8 @@ class _FaultyMixin:
         self.calls += 1
         if self.fail_at is not None and k == self.fail_at:
             self.fired = True
+            if getattr(self, "fail_with", None) is not None:
+                raise self.fail_with(f"injected at I/O call {k} ({what})")
             raise InjectedIOError(f"injected failure at I/O call {k} ({what})")
 
     def read(self, *a):
